@@ -40,8 +40,29 @@ INVERSE = {
 }
 
 
+# module-level dispatch tables {name: {key: value expression}} of rate.io
+_DISPATCH: dict = {}
+
+
+def _load_dispatch(mod):
+    _DISPATCH.clear()
+    for name, vals in mod.assigns.items():
+        v = vals[-1]
+        if len(vals) == 1 and isinstance(v, ast.Dict) and v.keys and all(
+                k is not None and const_str(k) is not None for k in v.keys):
+            _DISPATCH[name] = {const_str(k): x
+                               for k, x in zip(v.keys, v.values)}
+
+
 def _key_test(test, key, var="key"):
     """three-valued evaluation of a branch test for a fixed settings key"""
+    if isinstance(test, ast.Compare) and len(test.ops) == 1 and \
+            norm(test.left) == var and isinstance(
+                test.ops[0], (ast.In, ast.NotIn)) and isinstance(
+                test.comparators[0], ast.Name) and \
+            test.comparators[0].id in _DISPATCH:
+        r = key in _DISPATCH[test.comparators[0].id]
+        return r if isinstance(test.ops[0], ast.In) else not r
     if isinstance(test, ast.BoolOp):
         vals = [_key_test(v, key, var) for v in test.values]
         if isinstance(test.op, ast.And):
@@ -81,12 +102,20 @@ def _chain(ifnode):
     return out
 
 
-def _kind_of_value(body, valvar, writer):
+def _kind_of_value(body, valvar, writer, key=None, var="key"):
     """classify the transformation applied to `valvar` in a branch body"""
     for st in body:
         for n in ast.walk(st):
             if isinstance(n, ast.Assign) and norm(n.targets[0]) == valvar:
                 v = n.value
+                # TABLE[key](val) -> the table's function for this key
+                if isinstance(v, ast.Call) and isinstance(
+                        v.func, ast.Subscript) and isinstance(
+                        v.func.value, ast.Name) and v.func.value.id in \
+                        _DISPATCH and norm(v.func.slice) == var and \
+                        key in _DISPATCH[v.func.value.id]:
+                    v = ast.Call(func=_DISPATCH[v.func.value.id][key],
+                                 args=v.args, keywords=v.keywords)
                 t = norm(v)
                 if isinstance(v, ast.Call):
                     cn = call_name(v) or ""
@@ -119,14 +148,14 @@ def _kind_of_value(body, valvar, writer):
 def _branch_kind(chain, key, valvar, var, writer):
     for test, body in chain:
         if test is None:
-            k = _kind_of_value(body, valvar, writer)
+            k = _kind_of_value(body, valvar, writer, key, var)
             return k or "identity"
         v = _key_test(test, key, var)
         if v is None:
             raise Undecided(f"cannot evaluate branch test {norm(test)} for "
                             f"key {key}")
         if v:
-            k = _kind_of_value(body, valvar, writer)
+            k = _kind_of_value(body, valvar, writer, key, var)
             if k is None:
                 # multi-statement reader branch (float split)
                 txt = " ".join(norm(s) for s in body)
@@ -237,6 +266,7 @@ def _reader_requirements(fn, grp_pred):
 def r1_tables_agree(ctx):
     W = Writer(ctx.repo)
     io = W.mod
+    _load_dispatch(io)
     ld = io.func("load_hdf5")
     ctx.analysed(W.fn)
     ctx.analysed(ld)
@@ -388,8 +418,9 @@ def r1_tables_agree(ctx):
         for n in ast.walk(ld):
             if isinstance(n, ast.Dict):
                 for k, v in zip(n.keys, n.values):
-                    if const_str(k) == field and norm(v) == \
-                            f"attrs['{attr}']":
+                    if const_str(k) == field and (
+                            norm(v) == f"attrs['{attr}']" or norm(
+                                v).startswith(f"attrs.get('{attr}'")):
                         ok = True
         ctx.check(ok, ld, f"rating['{field}'] <- attribute '{attr}'",
                   f"the loaded '{field}' is not the stored '{attr}'")
@@ -401,6 +432,28 @@ def r1_tables_agree(ctx):
                  for st in walk_no_nested(W.fn, False))
         ctx.check(ok, W.fn, f"attribute '{attr}' <- {arg}",
                   f"'{attr}' is not written from `{arg}`")
+        if not ok:
+            continue
+        # ... on every save that returns normally (re-saving updates it)
+        cfg = _writer_cfg(W)
+        sts = [cfg.node_of_stmt(st) for st in walk_no_nested(W.fn, False)
+               if isinstance(st, ast.Assign) and norm(st.targets[0]) ==
+               f"{W.outvar}.attrs['{attr}']"]
+        sts = [n for n in sts if n is not None]
+        exits = cfg.normal_exits()
+        dom = bool(sts) and all(any(cfg.dominates(n.id, e) for n in sts)
+                                for e in exits)
+        ctx.check(dom, sts[0].ast if sts else W.fn,
+                  f"attribute '{attr}' written on every completed save",
+                  f"'{attr}' is only written on some paths of save_hdf5: "
+                  f"storing the same curve again can keep the previous "
+                  f"value (e.g. a cleared comment is not stored)")
+
+
+def _writer_cfg(W):
+    if getattr(W, "_cfg", None) is None:
+        W._cfg = CFG(W.fn)
+    return W._cfg
 
 
 MUT_ATTRS = ("create_dataset", "create_group", "require_dataset",
@@ -596,7 +649,14 @@ def r4_crash_window(ctx):
                     reads.append((("attr", const_str(n.slice)), n))
                 elif base == "h5gr":
                     reads.append((("dataset", const_str(n.slice)), n))
-        ctx.floor(f"entry items read by {label}", len(reads), 2)
+        tolerant = [c for c in calls_in(fn) if isinstance(
+            c.func, ast.Attribute) and c.func.attr == "get" and c.args
+            and const_str(c.args[0]) and len(c.args) == 2
+            and norm(c.func.value).endswith("attrs")]
+        for c in tolerant:
+            ctx.ok(c, f"{label}: {norm(c)[:50]} tolerates a missing item")
+        ctx.floor(f"entry items read by {label}",
+                  len(reads) + len(tolerant), 2)
         for item, node in reads:
             present = {("group", W.group_name)}
             for a in conditions_at(node):
@@ -639,31 +699,38 @@ def _check_window(ctx, fn, name, skip, req, position, order, node=None):
 def r5_lookup_key(ctx):
     W = Writer(ctx.repo)
     hr = W.mod.func("hdf5_rated")
-    names = [norm(st.value) for st in walk_no_nested(W.fn, False)
+    from ..symres import Resolver
+    Rw, Rr = Resolver(W.fn), Resolver(hr)
+    names = [Rw.text(st.value) for st in walk_no_nested(W.fn, False)
              if isinstance(st, ast.Assign)
              and norm(st.targets[0]) == W.group_name]
-    names2 = [norm(st.value) for st in walk_no_nested(hr, False)
+    names2 = [Rr.text(st.value) for st in walk_no_nested(hr, False)
               if isinstance(st, ast.Assign)
               and norm(st.targets[0]) == W.group_name]
     ctx.check(bool(names) and names == names2, hr,
               f"lookup key {names2} == writer's group name {names}",
               "hdf5_rated looks an entry up under a different name than "
               "save_hdf5 stores it")
-    for f in (W.fn, hr):
-        hs = [norm(st.value) for st in walk_no_nested(f, False)
-              if isinstance(st, ast.Assign) and norm(st.targets[0]) == "dhash"]
-        ctx.check(hs == ["hash_file(indent.path)"], f,
-                  f"{f.name}: dhash = {hs}",
-                  "file hash computed differently")
+    for f, nn in ((W.fn, names), (hr, names2)):
+        ctx.check(bool(nn) and all(
+            "{hash_file(indent.path)}_{indent.enum}" in x for x in nn), f,
+                  f"{f.name}: entry name = {nn}",
+                  "the entry name is not '<hash of the curve's file>_"
+                  "<enumeration>'")
     # returned fields
     for st in walk_no_nested(hr, False):
         if isinstance(st, ast.Assign) and norm(st.targets[0]) in ("rating",
                                                                   "comment")\
-                and isinstance(st.value, ast.Subscript):
+                and (isinstance(st.value, ast.Subscript) or (
+                    isinstance(st.value, ast.Call) and isinstance(
+                        st.value.func, ast.Attribute)
+                    and st.value.func.attr == "get" and st.value.args)):
             want = {"rating": "user rate", "comment": "user comment"}[
                 norm(st.targets[0])]
-            ctx.check(const_str(st.value.slice) == want, st,
-                      f"{norm(st.targets[0])} <- '{const_str(st.value.slice)}'",
+            got = const_str(st.value.slice) if isinstance(
+                st.value, ast.Subscript) else const_str(st.value.args[0])
+            ctx.check(got == want, st,
+                      f"{norm(st.targets[0])} <- '{got}'",
                       "hdf5_rated returns the wrong attribute")
 
 
